@@ -33,6 +33,11 @@ ASSUMPTIONS = ["probe outcomes are compared on canonical forms (results, tree fo
 OPS = ["ps", "pn", "pr", "pa", "pg", "bl", "bs", "bg", "bgs", "bo", "bo", "bf", "bfa", "bfi", "ng", "ngbad"]
 
 
+# exception types of the injected faults: the library itself catches some of these around
+# user callbacks (TypeError decides the recognizer calling convention)
+FAULT_NAMES = ["Boom", "Boom", "TypeError", "ValueError", "KeyError", "AttributeError", "IndexError"]
+
+
 class Boom(Exception):
     pass
 
@@ -53,6 +58,9 @@ def required(tier):
     d["raised.in_action"] = 50
     d["raised.in_recognizer"] = 50
     return d
+
+
+FAULTS = {"Boom": Boom, "TypeError": TypeError, "ValueError": ValueError, "KeyError": KeyError, "AttributeError": AttributeError, "IndexError": IndexError}
 
 
 class World:
@@ -81,7 +89,7 @@ class World:
             if flags["recognizer"] is not False:
                 if flags["recognizer"] <= 0:
                     flags["recognizer"] = False
-                    raise Boom("recognizer")
+                    raise FAULTS[flags.get("exc", "Boom")]("recognizer")
                 flags["recognizer"] -= 1
             e = tdefs[first].match(inp, pos)
             return inp[pos:e] if e is not None else None
@@ -96,7 +104,7 @@ class World:
                 if flags["action"] is not False:
                     if flags["action"] <= 0:
                         flags["action"] = False
-                        raise Boom("action")
+                        raise FAULTS[flags.get("exc", "Boom")]("action")
                     flags["action"] -= 1
                 return (name, tuple(nodes))
 
@@ -299,7 +307,7 @@ def one_grammar(ctx, g, alphabet, n):
             if op in ("pa", "pg"):
                 # [input, k]: the fault fires on the k-th call; inputs include non-sentences so
                 # that recognizers also raise while an error is being reported
-                arg = [rng.choice(sentences) if rng.random() < 0.6 else rng.choice(nons), rng.choice([0, 0, 1, 2, 3, 4, 5, 6, 8])]
+                arg = [rng.choice(sentences) if rng.random() < 0.6 else rng.choice(nons), rng.choice([0, 0, 1, 2, 3, 4, 5, 6, 8]), rng.choice(FAULT_NAMES)]
             elif op == "ps":
                 arg = rng.choice(sentences)
             elif op in ("pn", "pr"):
@@ -373,18 +381,22 @@ def execute(ctx, hist, judge_state):
             canon("lr_rec", w.subjects["lr_rec"], arg)
         elif op == "pa":
             w.flags["action"] = arg[1]
+            w.flags["exc"] = arg[2] if len(arg) > 2 else "Boom"
             try:
                 r = canon(subj, s, arg[0])
-                if ctx is not None and r[:2] == ["exc", "Boom"]:
+                if ctx is not None and r[:2] == ["exc", w.flags["exc"]]:
                     ctx.count("raised.in_action")
+                    ctx.seen("fault_types", "action:" + w.flags["exc"])
             finally:
                 w.flags["action"] = False
         elif op == "pg":
             w.flags["recognizer"] = arg[1]
+            w.flags["exc"] = arg[2] if len(arg) > 2 else "Boom"
             try:
                 r = canon(subj, s, arg[0])
-                if ctx is not None and r[:2] == ["exc", "Boom"]:
+                if ctx is not None and r[:2] == ["exc", w.flags["exc"]]:
                     ctx.count("raised.in_recognizer")
+                    ctx.seen("fault_types", "recognizer:" + w.flags["exc"])
             finally:
                 w.flags["recognizer"] = False
         elif op in ("bl", "bs", "bg", "bgs"):
